@@ -114,7 +114,7 @@ func selfTestInto(c *Ctx) {
 	ids := seededFor(c.Home, c.Prop)
 	results := make([]selfResult, len(ids))
 	var wg sync.WaitGroup
-	sem := make(chan struct{}, 5)
+	sem := make(chan struct{}, 8)
 	for i, id := range ids {
 		wg.Add(1)
 		sem <- struct{}{}
@@ -138,7 +138,7 @@ func selfTestInto(c *Ctx) {
 	}
 	// negative variants: behaviour-preserving refactorings under /verif/refactors*/<id>/patch.diff must stay silent
 	var negIDs []string
-	for _, dir := range []string{"refactors", "refactors2", "refactors3"} {
+	for _, dir := range []string{"refactors", "refactors2", "refactors3", "refactors4", "refactors5"} {
 		ents, _ := os.ReadDir(filepath.Join(c.Home, dir))
 		for _, e := range ents {
 			if e.IsDir() {
